@@ -61,6 +61,18 @@ def cases(tier, rng, schema, feats):
         n += 1
         out.append(f"C15.rtv.{n}\trtv\twebauthn::PublicKeyCredentialRpEntity\t{{icon=N;id=s{txt};name=S(s{txt})}}")
         n += 1
+    # members the SOURCE declares that the specification does not know (none on the unchanged tree): bytes -> value -> bytes
+    gnm = gen.Gen(schema, rng, tier, canonical=True)
+    for sname, key, val in gen.novel_members(schema, feats):
+        d = schema[sname]
+        if d.get("de") and d.get("ser"):
+            tree = gnm.named_wire(sname, present="all")
+            if sname == "webauthn::PublicKeyCredentialRpEntity":
+                tree = cbor.M([(k, v) for k, v in tree.pairs if k not in ("icon", "url")])
+            pairs = [(k, v) for k, v in tree.pairs if k != key] + [(key, val)]
+            pairs.sort(key=lambda kv: (len(cbor.enc(kv[0])), cbor.enc(kv[0])))
+            out.append(f"C15.reser.{n}\treser\t{sname}\t{cbor.enc(cbor.M(pairs)).hex()}")
+            n += 1
     gc = gen.Gen(schema, rng, tier, canonical=True)
     for t in ENCTY_TYPES + RESER_ONLY_TYPES:
         if t not in schema:
